@@ -49,6 +49,65 @@ def run_inprocess(argv, stdin_lines):
     return {"status": status, "exc": exc, "out": out.getvalue(), "err": err.getvalue(), "consumed": fake.consumed}
 
 
+def run_pty(argv, cols, rows, python=None, timeout=20, console_script=False):
+    """
+    the calculator as a child whose standard input and output are a pseudo-terminal with a real window size (what a user at an
+    80-column terminal has): output that is folded, truncated or decorated for the terminal shows only there
+    """
+    import fcntl
+    import pty
+    import select
+    import struct
+    import termios
+    import time
+    env = dict(os.environ)
+    env["PYTHONPATH"] = runner.REPO
+    env["PYTHONIOENCODING"] = "utf-8"
+    env.pop("PYTHONHASHSEED", None)
+    env.pop("COLUMNS", None)
+    env.pop("LINES", None)
+    env["TERM"] = "xterm"
+    launcher = ["-m", "cvss.cvss_calculator"]
+    if console_script:
+        launcher = ["-c", "import sys; from cvss.cvss_calculator import main; sys.argv[0] = 'cvss_calculator'; sys.exit(main())"]
+    master, slave = pty.openpty()
+    try:
+        fcntl.ioctl(slave, termios.TIOCSWINSZ, struct.pack("HHHH", rows, cols, 0, 0))
+        attrs = termios.tcgetattr(slave)
+        attrs[1] &= ~termios.ONLCR          # no NL -> CR NL translation: the bytes the program wrote
+        termios.tcsetattr(slave, termios.TCSANOW, attrs)
+        p = subprocess.Popen([python or sys.executable] + launcher + list(argv), stdin=slave, stdout=slave, stderr=subprocess.PIPE, env=env, cwd="/",
+                             close_fds=True)
+        os.close(slave)
+        slave = None
+        chunks = []
+        end = time.time() + timeout
+        while time.time() < end:
+            r, _, _ = select.select([master], [], [], 0.2)
+            if r:
+                try:
+                    data = os.read(master, 65536)
+                except OSError:
+                    break
+                if not data:
+                    break
+                chunks.append(data)
+            elif p.poll() is not None:
+                break
+        timed_out = False
+        try:
+            err = p.communicate(timeout=5)[1]
+        except subprocess.TimeoutExpired:
+            timed_out = True
+            p.kill()
+            err = p.communicate()[1]
+        return {"status": None if timed_out else p.returncode, "exc": None, "out": b"".join(chunks).decode("utf-8", "replace"), "err": err.decode("utf-8", "replace")}
+    finally:
+        os.close(master)
+        if slave is not None:
+            os.close(slave)
+
+
 def can_be_argv(argv):
     """can these strings be handed to a child process? (no NUL, only surrogates that stand for undecodable bytes)"""
     try:
